@@ -242,7 +242,49 @@ def run(prog, rep):
            ("line %d: %s releases the handle after p_uthread_create_internal started the native thread with it: the new thread is parked on the creation spinlock with that "
             "object as its argument and in its TLS slot, and runs on freed memory" % (line(badrel[0]), badrel[0].get("callee")) if badrel else "the call of p_uthread_create_internal was not found"),
            badrel[0] if badrel else cf.loc[0])
-    rep.floor("C05.2", 5 + 1 + 2)
+    # the same inside the native constructor: the handle is released on its failure exit only when the *last* pthread_create made on
+    # the path is known to have failed.  (A retry whose result is dropped leaves the first attempt's error code in the variable the
+    # exit tests: the retry's thread runs on a handle that is freed under it.)
+    ci = pu.fn("p_uthread_create_internal")
+    pcs = [c for (b, i, c) in ci.calls() if c.get("callee") == "pthread_create"]
+    hvar = root_var(pcs[0]["args"][3]) if pcs and len(pcs[0]["args"]) > 3 else None
+    badfree = []
+
+    def cs(st, b, i, stmt):
+        facts, last = st
+        mine = [c for c in calls(stmt) if c.get("callee") == "pthread_create"]
+        if mine:
+            top = strip_casts(stmt)
+            if top is not None and top["k"] == "asg" and strip_casts(top["l"])["k"] == "ref" and strip_casts(top["r"]) is mine[-1]:
+                facts = guards.transfer(facts, stmt)
+                return [(facts, ("var", strip_casts(top["l"])["name"]))]
+            if top is mine[-1]:
+                last = ("dropped", line(stmt))
+            else:
+                last = ("key", guards.key(mine[-1]))
+        if last is not None:
+            for c in calls(stmt):
+                if c.get("callee") in ("p_free", "p_uthread_free_internal") and c.get("args") and root_var(c["args"][0]) == hvar and strip_casts(c["args"][0])["k"] == "ref":
+                    if last[0] == "dropped":
+                        badfree.append((c, "the result of the pthread_create at line %d is discarded" % last[1]))
+                    else:
+                        k_ = last[1]
+                        v_ = guards.lookup(facts, k_)
+                        failed = (v_ is not None and v_ != 0) or any(fk == k_ and fop == "!=" and fv == 0 for (fk, fop, fv) in facts)
+                        if not failed:
+                            badfree.append((c, "the last pthread_create on this path is not known to have failed"))
+        return [(guards.transfer(facts, stmt), last)]
+
+    def ce(st, b, to, on):
+        f2 = guards.edge_assume(st[0], b, on)
+        return None if f2 is None else (f2, st[1])
+    if pcs and hvar:
+        Flow(ci, [(guards.EMPTY, None)], cs, ce).run()
+    okc = bool(pcs) and hvar is not None and not badfree
+    rep.ob("C05.2", ci, "native:kept", okc, "the handle is released in p_uthread_create_internal only after the last pthread_create on the path failed" if okc else
+           ("line %d: the handle is released although %s: a native thread may have been started with it and runs on freed memory, while the creator gets NULL" % (
+               line(badfree[0][0]), badfree[0][1]) if badfree else "pthread_create (..., handle) not found in p_uthread_create_internal"), badfree[0][0] if badfree else ci.loc[0])
+    rep.floor("C05.2", 5 + 1 + 2 + 1)
 
     # ---- C05.3 ---------------------------------------------------------------------
     jn = u.fn("p_uthread_join").inlined()
@@ -530,10 +572,21 @@ def run(prog, rep):
     rep.floor("C05.5", 2)
 
 
+# objects are zero-filled at birth: the functions of these units rely on it for every field their constructors do not store
+_run_clauses = run
+
+
+def run(prog, rep):
+    _run_clauses(prog, rep)
+    from plint.wiring import check_zero_init
+    check_zero_init(rep, "C05.3", prog, ['puthread.c', 'puthread-posix.c'], 3)
+
 # generic robustness battery: renaming every local/parameter in these files must not change any verdict
 RENAME_LOCALS = ['src/puthread.c', 'src/puthread-posix.c']
 
 SELFTEST = [
+    dict(id="eperm-retry-result-dropped", file="src/puthread-posix.c", expect="C05.2",
+         old="#  endif\n\t\tcreate_code = pthread_create (&ret->hdl, &attr, func, ret);\n\t}", new="#  endif\n\t\tpthread_create (&ret->hdl, &attr, func, ret);\n\t}"),
     dict(id="creation-spinlock-never-created", file="src/puthread.c", expect="C05.1",
          old="\tif (P_LIKELY (pp_uthread_new_spin == NULL))\n\t\tpp_uthread_new_spin = p_spinlock_new ();", new="\tif (P_LIKELY (pp_uthread_new_spin != NULL))\n\t\tpp_uthread_new_spin = p_spinlock_new ();"),
     dict(id="shutdown-keeps-handle-in-slot", file="src/puthread.c", expect="C05.2",
